@@ -64,6 +64,7 @@ type Obligation struct {
 }
 
 type VCGen struct {
+	pendingInlineArgs []ssa.Value // SSA arguments of the call being inlined (constants resolve its branches)
 	inRunDefers bool
 	panickingC  string
 	lockState *State // state right after the (single) monitor lock acquisition of this function
